@@ -165,6 +165,10 @@ fn parse_args() -> Args {
 }
 
 fn main() {
+    if std::env::var("VCHECK_F26_WITNESS").is_ok() {
+        println!("survived: {}", vcat::statics::f26_witness());
+        return;
+    }
     let a = parse_args();
     if let Some((target, file)) = &a.artifact {
         // an input saved by a libFuzzer campaign becomes a replay file of this property
